@@ -75,6 +75,17 @@ CLAIMED["C08"] = ("other",
     "Assumes no 32-bit overflow of the products and exact Pow10 for the exponents used; the floor-division lemma (q div d)*d <= q for d > 0 is used, not proved; decimal fractions are agreed upon by both sides but not judged.",
     "DESIGN.md §4 C08")
 
+CLAIMED["C01"] = ("other",
+    "linear-form value numbering over an abstract heap of the subscriber's map cells (reaching definitions per loop iteration), enum-set dataflow over the rating-type switch, edge-relation facts, who-may-write tables; the account server's equations are re-used from C07",
+    "Decides the per-request transfer equations symbolically (all amounts at once, no execution): in reserve mode the reservation cell is written only as R0 - cost x used and + granted, where granted answers a DIRECT_DEBITING/UPDATE request for exactly -(R0 - cost x used) + cost x requested; in debit mode the price is the rating of the used volume, R - price is refunded on the edge price < R and price - R debited (TERMINATION) otherwise, and the reservation is cleared only after the request succeeded; the account server applies exactly those amounts and stores before it answers; nothing else writes the accounting cells or the balance. The conservation identity over a history follows by induction from these equations together with C09 (atomicity) and C17 (fidelity); that induction is an argument, not something this check runs.",
+    "Assumes no integer overflow/truncation (products fit Unsigned32), peers reachable (error edges excluded, as the property's quantifier says), one rating group per loop iteration. Recharge is outside the CHF.",
+    "DESIGN.md §4 C01")
+CLAIMED["C06"] = ("other",
+    "linear-form value numbering with edge-relation facts on the monetary quota's reaching definitions; min-form recognition; dominance rule for the final-unit indication; the account server's clamp re-used from C07",
+    "Decides necessary conditions of 'no overdraft' for all balances, tariffs and request sizes: every definition of the Monetary-Quota offered for rating is 0, the reservation held, or a value tested <= the reservation (so AllowedUnits, and the grant = min(AllowedUnits, requested), never exceed what the reserved money buys, and is 0 when nothing is left); debit mode grants 0; the final-unit indication is set exactly on the edge where the account server signalled TERMINATE; the account server grants min(request, balance). The balance trajectory over histories is not simulated.",
+    "Same numeric assumptions as C01/C07/C08; the floor-division lemma of C08.",
+    "DESIGN.md §4 C06")
+
 # id -> reason, for properties not (yet) claimed
 NOT_APPLICABLE = {
 }
